@@ -122,7 +122,7 @@ func genMAC(node string, v6 bool) string {
 
 func vxCase(seed uint64, idx int) map[string]any {
 	r := caseRng(seed^0x7f4a7c15, idx)
-	n := 6 + r.intn(34)
+	n := 12 + r.intn(34)
 	var ops []vxop
 	var bgpNil []bool
 	last := map[int]vxop{}
@@ -138,8 +138,8 @@ func vxCase(seed uint64, idx int) map[string]any {
 		var o vxop
 		switch x := r.intn(100); {
 		case x < 30:
-			o = vxop{kind: "node", n: nd, a: orNone(20, fmt.Sprintf("192.168.0.%d", nd+1), fmt.Sprintf("192.168.1.%d", nd+1)),
-				b: orNone(30, fmt.Sprintf("dead:beef::%d", nd+1), fmt.Sprintf("dead:beef::1:%d", nd+1))}
+			o = vxop{kind: "node", n: nd, a: orNone(12, fmt.Sprintf("192.168.0.%d", nd+1), fmt.Sprintf("192.168.1.%d", nd+1)),
+				b: orNone(15, fmt.Sprintf("dead:beef::%d", nd+1), fmt.Sprintf("dead:beef::1:%d", nd+1))}
 			if l, ok := last[nd]; ok && r.chance(50) {
 				// in-place re-addressing: only the IPv6 (or only the IPv4) address differs from the last Node update
 				o.a, o.b = l.a, l.b
@@ -155,9 +155,9 @@ func vxCase(seed uint64, idx int) map[string]any {
 			o = vxop{kind: "nodedel", n: nd}
 			delete(last, nd)
 		case x < 55:
-			o = vxop{kind: "tun4", n: nd, a: orNone(25, fmt.Sprintf("10.0.%d.0", nd), fmt.Sprintf("10.0.%d.1", nd))}
+			o = vxop{kind: "tun4", n: nd, a: orNone(15, fmt.Sprintf("10.0.%d.0", nd), fmt.Sprintf("10.0.%d.1", nd))}
 		case x < 75:
-			o = vxop{kind: "tun6", n: nd, a: orNone(25, fmt.Sprintf("fd00:10:%d::1", nd), fmt.Sprintf("fd00:10:%d::2", nd))}
+			o = vxop{kind: "tun6", n: nd, a: orNone(15, fmt.Sprintf("fd00:10:%d::1", nd), fmt.Sprintf("fd00:10:%d::2", nd))}
 		case x < 87:
 			o = vxop{kind: "mac4", n: nd, a: orNone(40, fmt.Sprintf("66:74:c5:72:3f:%02x", nd), fmt.Sprintf("66:74:c5:72:3f:%02x", 16+nd))}
 		default:
